@@ -1,0 +1,65 @@
+//go:build verif
+
+package prover
+
+// Contracts checked by /verif (govc). This file contains comments only: with the build
+// tag off it is not part of the package, with the tag on it compiles to nothing.
+// Syntax and semantics: /verif/DESIGN.md.
+
+// ---------------------------------------------------------------------------------------
+// C06 — bit-encoding gadgets (proved for every field modulus P and byte-aligned width)
+// ---------------------------------------------------------------------------------------
+
+//@ func (ReducedModRCheck) DefineGadget
+//@   property C06 C03
+//@   field generic
+//@   returns []Variable
+//@   let n = len(r.Input)
+//@   ensures api.ok == (ok0 && (n >= bits.bitlen(P) ==> bits.allboolFrom(r.Input, 0, n) && bits.binvalFrom(r.Input, 0, n) < P))
+//@   ensures len(result) == 0
+//@   lemmas bitlen_def pow2_mono hi_id hi_end hi_split binvalFrom_end binvalFrom_split allboolFrom_end allboolFrom_split bit_bool
+//@   reveal field.sub
+//@   loop 1
+//@     invariant -1 <= i && i < n
+//@     invariant api.ok == (ok0 && bits.allboolFrom(r.Input, i+1, n))
+//@     invariant api.ok ==> isbool(succeeded) && isbool(failed) && !(succeeded == 1 && failed == 1)
+//@     invariant api.ok ==> ((succeeded == 1) == (bits.binvalFrom(r.Input, i+1, n) < bits.hi(P, i+1, n)))
+//@     invariant api.ok ==> ((failed == 1) == (bits.binvalFrom(r.Input, i+1, n) > bits.hi(P, i+1, n)))
+//@     decreases i + 1
+
+//@ func (ToReducedBigEndian) DefineGadget
+//@   property C06 C03
+//@   field generic
+//@   returns []Variable
+//@   requires gadget.Size >= 0 && gadget.Size % 8 == 0
+//@   let n = gadget.Size
+//@   let v = gadget.Variable
+//@   ensures len(result) == n
+//@   ensures[A] api.ok ==> ok0 && v < bits.pow2(n)
+//@   ensures[A] api.ok ==> (forall t :: 0 <= t && t < n ==> result[t] == bits.bit(v, pack.beIdx(t, n)))
+//@   ensures[H] api.ok == (ok0 && v < bits.pow2(n))
+//@   ensures[H] forall t :: 0 <= t && t < n ==> result[t] == bits.bit(v, pack.beIdx(t, n))
+//@   lemmas bitlen_def pow2_mono pow2_pos hi_id hi_bounds binvalFrom_bounds bits_unique binvalFrom_bitsOf allbool_bitsOf bitsOf_sel
+//@   loop 1
+//@     invariant -8 <= i && i <= n - 8 && i % 8 == 0
+//@     invariant len(newBits) == n - 8 - i
+//@     invariant forall t :: 0 <= t && t < len(newBits) ==> newBits[t] == bitsLittleEndian[pack.beIdx(t, n)]
+//@     decreases i + 8
+
+//@ func (FromBinaryBigEndian) DefineGadget
+//@   property C06 C03
+//@   field generic
+//@   returns Variable
+//@   requires len(gadget.Variable) % 8 == 0
+//@   let n = len(gadget.Variable)
+//@   ensures api.ok == (ok0 && bits.allboolFrom(gadget.Variable, 0, n))
+//@   ensures result == pack.beval(gadget.Variable, n) % P
+//@   lemmas binvalFrom_ext allboolFrom_ext beSwap_sel allbool_beSwap
+//@   assert@loop1 len(newBits) == n
+//@   assert@loop1 bits.allboolFrom(newBits, 0, n) == bits.allboolFrom(pack.beSwap(gadget.Variable, n), 0, n)
+//@   assert@loop1 bits.binvalFrom(newBits, 0, n) == bits.binvalFrom(pack.beSwap(gadget.Variable, n), 0, n)
+//@   loop 1
+//@     invariant -8 <= i && i <= n - 8 && i % 8 == 0
+//@     invariant len(newBits) == n - 8 - i
+//@     invariant forall t :: 0 <= t && t < len(newBits) ==> newBits[t] == gadget.Variable[pack.beIdx(t, n)]
+//@     decreases i + 8
